@@ -5,6 +5,7 @@
 //!   stats.txt histogram of what was exercised, spec-oracle failures of the implementation
 #![allow(dead_code)]
 mod engines;
+mod memnet;
 mod msgtext;
 mod rng;
 mod sha1;
